@@ -75,6 +75,10 @@ func (mp MultiPolygon) Polygons() []Polygon {
 // The algorithm will not check to make sure the holes are
 // actually inside the outer rings.
 func (mp MultiPolygon) Centroid() Point {
+	if s, o, e, ok := centroidFrame(mp); ok {
+		c := MultiPolygon(s).Centroid()
+		return Point{X: o.X + math.Ldexp(c.X, e), Y: o.Y + math.Ldexp(c.Y, e)}
+	}
 	var A, xA, yA float64
 	for _, p := range mp {
 		b := p.ringBounds()
